@@ -4,6 +4,7 @@ import os
 import re
 import shutil
 import subprocess
+import tempfile
 import time
 
 from . import core, scen, props
@@ -131,8 +132,18 @@ def run(tier, seed, replay, keep):
         nsys = 0
         samples = []
         seq = 0
+        # the same saves again with the default temporary directory on another file system (where rename(2) from it would fail with EXDEV)
+        alt_tmp = None
+        try:
+            if os.path.isdir("/dev/shm") and os.stat("/dev/shm").st_dev != os.stat(wd).st_dev:
+                alt_tmp = tempfile.mkdtemp(prefix="verif-c16-tmp-", dir="/dev/shm")
+        except OSError:
+            alt_tmp = None
+        passes = [(i, sz, None) for i, sz in enumerate(sizes(tier))]
+        if alt_tmp:
+            passes += [(len(sizes(tier)) + i, sz, alt_tmp) for i, sz in enumerate(sizes(tier)[:4])]
         with open(trace_path, "w") as out:
-            for i, (lines, lineN, words) in enumerate(sizes(tier)):
+            for i, (lines, lineN, words), tmpdir in passes:
                 name = names[i % len(names)]
                 d = os.path.join(wd, f"st{i}")
                 os.makedirs(d)
@@ -140,7 +151,7 @@ def run(tier, seed, replay, keep):
                 so = os.path.join(wd, f"strace{i}.txt")
                 cmd = ["strace", "-f", "-y", "-s", "0", "-o", so, "-e", "trace=" + SYSCALLS, binary, "-test.run", "^TestVerifChild$",
                        "-test.timeout", "0", "-verif.child", spec]
-                p = subprocess.run(cmd, cwd=d, env=core.GOENV, capture_output=True, text=True, timeout=300)
+                p = subprocess.run(cmd, cwd=d, env=dict(core.GOENV, TMPDIR=tmpdir) if tmpdir else core.GOENV, capture_output=True, text=True, timeout=300)
                 if p.returncode != 0 or not os.path.exists(so):
                     raise core.Undecided("strace run failed: " + p.stderr[-2000:])
                 evs = parse_strace(open(so, errors="replace").read(), d, name)
@@ -158,7 +169,7 @@ def run(tier, seed, replay, keep):
                 for pth, sz in sizes_.items():
                     if classify(pth, name):
                         final = sz
-                sid = f"c16-strace-{i}-{lines}x{lineN}-{words}w"
+                sid = f"c16-strace-{i}-{lines}x{lineN}-{words}w" + ("-tmpdir-elsewhere" if tmpdir else "")
                 seq += 1
                 out.write(json.dumps({"ev": "scen.begin", "seq": seq, "id": sid, "mode": "strace", "finalSize": final, "name": name}) + "\n")
                 for e in evs:
@@ -183,7 +194,8 @@ def run(tier, seed, replay, keep):
 
         def one(j):
             outp = os.path.join(wd, f"crash{j}.ndjson")
-            core.run_harness(binary, parts[j], outp, "", mode="crash", timeout=3000, extra=("-verif.work", wd))
+            core.run_harness(binary, parts[j], outp, "", mode="crash", timeout=3000, extra=("-verif.work", wd),
+                             env={"TMPDIR": alt_tmp} if alt_tmp and j % 2 else None)
             return outp
         with cf.ThreadPoolExecutor(max_workers=len(parts)) as ex:
             paths = list(ex.map(one, range(len(parts))))
@@ -203,6 +215,8 @@ def run(tier, seed, replay, keep):
                             {"name": f["path"][-34:], "picked_up": f["glob"], "parses": f["ok"], "bytes": f.get("size")} for f in e["files"]]})
     finally:
         shutil.rmtree(wd, ignore_errors=True)
+        if alt_tmp:
+            shutil.rmtree(alt_tmp, ignore_errors=True)
     known, new = core.classify("C16", val["violations"])
     for v in known:
         print(f"KNOWN-FINDING: property=C16 {v['finding']} (scenario {v['scenario']})")
@@ -216,7 +230,7 @@ def run(tier, seed, replay, keep):
     if kills < 2:
         raise core.Undecided("no crash point could be exercised")
     coverage = {"states": states + val["tlc_states"], "transitions": trans + val["lines"], "traces_validated_against_impl": val["scenarios"],
-                "samples": samples, "evaluations": points + len(sizes(tier)), "distinct_nontrivial": kills,
+                "samples": samples, "evaluations": points + len(passes), "distinct_nontrivial": kills,
                 "rule": "one case = one real kill of the saving process on entry to its k-th file-system step (every k for small outputs, first/last and strided for big ones) for 6 (quick) / 10 (thorough) output sizes, plus one strace-recorded save per size whose every inter-syscall state is checked; non-trivial = the child was really killed by SIGKILL",
                 "exhaustive": False, "syscalls_validated": nsys, "crash_points_killed": kills, "design_models": notes,
                 "binding_lost": val["binding_lost"],
